@@ -298,6 +298,11 @@ seed argument is a draw from `self.rng` inside the scope (possibly passed throug
 parameter) -/
 def kernelCallOk (k : Bool × Bool) : Bool := k.1 && k.2
 
+/-- per kernel call site the transformations applied to the derived integer seed between the in-scope `self.rng` draw
+and the kernel (`seed = seed or …`, `if seed:`, `abs`, `%`, …, also through helper parameters): the seed must be **passed
+unchanged**, otherwise some value of the draw (0 is one) is replaced by something that is not a function of the call's seed -/
+def kernelSeedsUnchanged (l : List (String × List String)) : Bool := l.all fun k => k.2.isEmpty
+
 /-- ordered libc events of one `.pyx` kernel body, cdef helpers expanded, in execution order of the straight-line
 prefix: `"srand:seed"` (`srand` of the int parameter `seed`), `"srand:other"`, `"rand"` (a `rand()` or a helper
 that calls it), `"pyrand"` (a numpy / python / torch generator used inside the kernel).  The kernel is admissible
